@@ -486,9 +486,9 @@ int main(int argc, char** argv) {
   vr::Runner R(args);
   const bool quick = R.quick();
 #if defined(__SANITIZE_ADDRESS__)
-  const unsigned d_main = quick ? 3 : 4, d_side = quick ? 3 : 4;
-#else
   const unsigned d_main = quick ? 4 : 5, d_side = quick ? 3 : 4;
+#else
+  const unsigned d_main = quick ? 5 : 6, d_side = quick ? 4 : 5;
 #endif
   std::string extra;
   uint64_t states = 0, trans = 0;
